@@ -35,6 +35,17 @@ func CheckStored(r *Report, tag string, seg segment.Segment, m *model.Seg, early
 	if !same {
 		r.Fail("fields", "%s: Fields %q, want %q", tag, seg.Fields(), m.Fields)
 	}
+	// ids returned by DocID are kept (not copied) across all later calls: a caller
+	// may hold on to them
+	heldIDs := make([][]byte, 0, m.NumDocs)
+	defer func() {
+		for d, id := range heldIDs {
+			if string(id) != m.IDs[d] {
+				r.Fail("docid-unstable", "%s: the slice DocID(%d) returned reads %q after later calls, want %q", tag, d, id, m.IDs[d])
+				break
+			}
+		}
+	}()
 	for d := uint64(0); d < m.NumDocs; d++ {
 		var cbs []cb
 		err := seg.VisitStoredFields(d, func(field string, typ byte, value []byte, pos []uint64) bool {
@@ -101,6 +112,7 @@ func CheckStored(r *Report, tag string, seg segment.Segment, m *model.Seg, early
 		if err != nil || string(id) != m.IDs[d] {
 			r.Fail("docid", "%s: DocID(%d)=%q,%v want %q", tag, d, id, err, m.IDs[d])
 		}
+		heldIDs = append(heldIDs, id)
 	}
 	for _, d := range []uint64{m.NumDocs, m.NumDocs + 1, m.NumDocs + 1000, 1 << 31} {
 		n := 0
